@@ -62,7 +62,8 @@ func decode(raw json.RawMessage) (a srcArgs, err error) {
 
 // RunResult is the reply of op "run".
 type RunResult struct {
-	Stdout   string `json:"stdout"`
+	Stdout   string `json:"stdout"` // lossy when the output is not valid UTF-8; Raw is exact
+	Raw      []byte `json:"raw"`
 	ExitCode int    `json:"exit_code"`
 	IsExit   bool   `json:"is_exit"` // err was a sys.ExitError (proc_exit / panic path)
 	Stage    string `json:"stage"`   // which stage produced the error: build | assemble | run
@@ -87,7 +88,8 @@ func init() {
 		}
 		res.Stage = "run"
 		stdout, stderr, err := wazero.RunWasm(a.Name, wasmBytes, fsetBytes, mainFunc, a.Args...)
-		res.Stdout = string(append(stdout, stderr...))
+		res.Raw = append(stdout, stderr...)
+		res.Stdout = string(res.Raw)
 		if err != nil {
 			if code, ok := wazero.AsExitError(err); ok {
 				res.ExitCode, res.IsExit = code, true
